@@ -131,6 +131,32 @@ def endpoint_e2e_part(work, rep, tier, seed, prop, kinds, prod):
     rep.cov["requests_end_to_end" + ("_production_binary" if prod else "")] = rep.cov.get("requests_end_to_end" + ("_production_binary" if prod else ""), 0) + n
 
 
+def extlock_part(work, rep, tier, seed, prop):
+    """The production binary on its database file while ANOTHER connection to that file (a backup, an operator's sqlite3 shell) holds a read
+    transaction during one request: the witness' COMMIT cannot get its exclusive lock within SQLite's busy timeout. Whatever the endpoint answers,
+    200 means the checkpoint is what a read returns afterwards; the same request is accepted once the other connection is gone."""
+    build_driver()
+    c = bconsts("quick")
+    E = {"k": "empty"}
+    def ok(old, b, n, pf, **kw):
+        return dict({"op": "post", "kind": "ok", "log": "l1", "req": {"auth": "good", "old": old, "b": b, "n": n, "extra": 0, "stale": 0, "ext": 0, "pf": pf}}, **kw)
+    R12, R23 = {"k": "right", "b": 0, "m": 1, "n": 2}, {"k": "right", "b": 0, "m": 2, "n": 3}
+    runs = [{"id": "extlock-%s-grow" % prop, "limit": 100000, "steps": [ok(0, 0, 1, E), ok(1, 0, 2, R12, extlock=True), ok(1, 0, 2, R12), ok(2, 0, 2, E), ok(2, 0, 3, R23)]},
+            {"id": "extlock-%s-first" % prop, "limit": 100000, "steps": [ok(0, 0, 1, E), ok(1, 0, 1, E, extlock=True), ok(1, 0, 2, R12)]}]
+    rp, rt = work.path("extlock-%s.jsonl" % prop), work.path("extlock-%s.ndjson" % prop)
+    write_runs(rp, params_of(c), runs)
+    o, dt = run_driver(["bastion-e2e", "-in", rp, "-out", rt, "-dir", work.sub("db"), "-seed", str(seed), "-prod", build_prod_binary()], timeout=3000)
+    rep.notes.append("endpoint while another connection holds the database: %s (%.0fs)" % (o.strip(), dt))
+    events = read_ndjson(rt)
+    fails = bastion_judge(work, rep, c, rt, name="judge-extlock")
+    seqfam.settle(rep, prop, fails, events, c)
+    held = [e for e in events if e["e"] == "post" and e.get("extlock")]
+    if not held:
+        raise Inconclusive("no request was served while the outside reader held the database")
+    rep.cov["requests_served_while_another_connection_held_the_database"] = {str(e["status"]): sum(1 for x in held if x["status"] == e["status"]) for e in held}
+    rep.cov["evaluations"] += sum(1 for e in events if e["e"] == "post")
+
+
 def c10(work, tier, seed, replay):
     rep = Report("C10", tier, seed, "model_checking")
     rng = random.Random(seed)
@@ -241,6 +267,7 @@ def c10(work, tier, seed, replay):
     # says for some order of the overlapping requests, and a 200 body that verifies over the text THIS request submitted
     import checks_ops
     checks_ops.prod_conc_part(work, rep, tier, seed, "C10", "the endpoint's answer belongs to the request it answers")
+    extlock_part(work, rep, tier, seed, "C10")
     rep.assumptions += ["the overlay shim builds the in-process handler exactly as FeedBastion does; a sample of the same runs goes end to end through the exported FeedBastion over TLS 1.3 + HTTP/2",
                         "monotonic clock for the rate-limit bounds"]
     return rep.finish()
